@@ -1,5 +1,6 @@
 import ClockBound.Properties.CodeTiePoller
 import ClockBound.Properties.CodeTieNow
+import ClockBound.Properties.CodeTieDispatch
 #print axioms ClockBound.CodeTiePoller.iteration_eq
 #print axioms ClockBound.CodeTiePoller.loop_found
 #print axioms ClockBound.CodeTiePoller.iteration_reads_order
@@ -11,3 +12,13 @@ import ClockBound.Properties.CodeTieNow
 #print axioms ClockBound.CodeTieNow.now_err_realtime
 #print axioms ClockBound.CodeTieNow.now_err_monotonic
 #print axioms ClockBound.CodeTieNow.now_not_stuck
+#print axioms ClockBound.CodeTieDispatch.process_messages_eq
+#print axioms ClockBound.CodeTieDispatch.records_eq
+#print axioms ClockBound.CodeTieDispatch.iteration_eq
+#print axioms ClockBound.CodeTieDispatch.iteration_abort
+#print axioms ClockBound.CodeTiePoller.iteration_send_fails
+#print axioms ClockBound.CodeTiePoller.iteration_clock_fails
+#print axioms ClockBound.CodeTiePoller.loop_eq
+#print axioms ClockBound.CodeTiePoller.loop_send_fails
+#print axioms ClockBound.CodeTiePoller.pollRun_panics_iff
+#print axioms ClockBound.CodeTiePoller.run_eq
